@@ -201,6 +201,9 @@ func (d *Decoder) LoadParityData() error {
 
 	// TODO: Count only files saved in volume set.
 	fileCount := d.indexVolume.header.FileCount
+	if fileCount >= 256 {
+		return errors.New("too many files")
+	}
 	maxParityVolumeCount := 256 - fileCount
 	// TODO: Support more than 99 parity volumes.
 	if maxParityVolumeCount > 99 {
